@@ -272,15 +272,16 @@ class Documentable:
         old_parent = self.parent
         assert isinstance(old_parent, CanContainImportsDocumentable)
         old_name = self.name
+        del old_parent.contents[old_name]
         self.parent = self.parentMod = new_parent
         self.name = new_name
-        prev = self.system.allobjects.get(self.fullName())
-        if prev is not None and prev is not old_parent:
-            # The new name is already taken by a definition of the new parent:
-            # the moved object wins, like a later definition of the same name does.
+        if self.fullName() in self.system.allobjects:
+            # The new name is already taken by a definition of the new parent
+            # (possibly by the module we're moving out of, when a module and the class
+            # it defines share their name): the moved object wins, like a later
+            # definition of the same name does.
             self.system.handleDuplicate(self)
         self._handle_reparenting_post()
-        del old_parent.contents[old_name]
         old_parent._localNameToFullName_map[old_name] = self.fullName()
         new_parent.contents[new_name] = self
         self._handle_reparenting_post()
